@@ -13,20 +13,34 @@ async fn verif_replay_hist_reload() {
         .with_step(|s| s.with_name("step1").with_act(Act::irq(|a| a.with_key("act1"))))
         .with_step(|s| s.with_name("step2").with_act(Act::irq(|a| a.with_key("act2"))));
     let m2 = Workflow::new().with_id("vm2").with_step(|s| s.with_id("only").with_act(Act::irq(|a| a.with_key("act1"))));
+    // a fourth process stands inside a catch rule whose steps carry NO explicit id (generated ids must survive the reload: the rule's
+    // remaining steps hang off the node the waiting task is re-bound to)
+    let m3 = Workflow::new().with_id("vm3").with_step(|s| s.with_id("s1").with_act(Act::irq(|a| a.with_key("boom")))
+        .with_catch(|c| c.with_step(|s| s.with_name("r1").with_act(Act::irq(|a| a.with_key("act1")))).with_step(|s| s.with_name("r2").with_act(Act::irq(|a| a.with_key("r2act"))))));
     engine.executor().model().deploy(&m1).unwrap();
     engine.executor().model().deploy(&m2).unwrap();
+    engine.executor().model().deploy(&m3).unwrap();
     let seen: Arc<Mutex<Vec<String>>> = Arc::new(Mutex::new(Vec::new()));
     let s2 = seen.clone();
-    engine.channel().on_message(move |e| { if e.key == "act1" && e.is_state(MessageState::Created) { s2.lock().unwrap().push(e.pid.clone()); } });
+    engine.channel().on_message(move |e| {
+        if e.key == "act1" && e.is_state(MessageState::Created) { s2.lock().unwrap().push(e.pid.clone()); }
+        if e.key == "boom" && e.is_state(MessageState::Created) {
+            let mut o = Vars::new(); o.set(crate::utils::consts::ACT_ERR_CODE, "e1");
+            let _ = e.do_action(&e.pid, &e.tid, crate::event::EventAction::Error, &o);
+        }
+    });
     let mut pids = Vec::new();
     pids.push(engine.executor().proc().start("vm1", &Vars::new().with("v", 1)).unwrap());
     pids.push(engine.executor().proc().start("vm1", &Vars::new().with("v", 2)).unwrap());
     pids.push(engine.executor().proc().start("vm2", &Vars::new().with("v", 3)).unwrap());
-    for _ in 0..200 { if seen.lock().unwrap().len() >= 3 { break; } tokio::time::sleep(std::time::Duration::from_millis(25)).await; }
+    pids.push(engine.executor().proc().start("vm3", &Vars::new().with("v", 4)).unwrap());
+    for _ in 0..200 { if seen.lock().unwrap().len() >= 4 { break; } tokio::time::sleep(std::time::Duration::from_millis(25)).await; }
     tokio::time::sleep(std::time::Duration::from_millis(200)).await;
     let mut bad: Vec<String> = Vec::new();
     let describe = |p: &Arc<Process>| -> (String, String, i64, String, Vec<(String, String, Option<String>, String, i64, i64, String)>) {
-        let mut tasks: Vec<_> = p.tasks().iter().map(|t| (t.id.clone(), t.state().to_string(), t.prev(), t.data().to_string(), t.start_time(), t.end_time(), t.node().id().to_string())).collect();
+        // node = its id + the id of its successor + the ids of its children (the links the flow continues along after the reload)
+        let links = |t: &Arc<crate::scheduler::Task>| format!("{} next={:?} children={:?}", t.node().id(), t.node().next().upgrade().map(|n| n.id().to_string()), t.node().children().iter().map(|n| n.id().to_string()).collect::<Vec<_>>());
+        let mut tasks: Vec<_> = p.tasks().iter().map(|t| (t.id.clone(), t.state().to_string(), t.prev(), t.data().to_string(), t.start_time(), t.end_time(), links(t))).collect();
         tasks.sort();
         (p.model().to_json().unwrap_or_default(), p.state().to_string(), p.start_time(), p.env().to_string(), tasks)
     };
